@@ -1350,6 +1350,11 @@ func (c *Ctx) checkConfigErrors(r *Report, cfg map[*ssa.Function]bool) {
 		if f.Pkg != c.LogS {
 			continue
 		}
+		// Lifecycle.Stop has no error result by contract: what a Stop does with Sync/Close errors is the shutdown
+		// path's matter (C05, C20), not the configuration's
+		if f.Name() == "Stop" && f.Signature.Recv() != nil && f.Signature.Results().Len() == 0 && f.Signature.Params().Len() == 0 {
+			continue
+		}
 		eachInstr(f, func(in ssa.Instruction) {
 			call, ok := in.(*ssa.Call)
 			if !ok {
